@@ -163,7 +163,8 @@ def allocate_scenarios():
     return out
 
 
-register(Contract(K + "Quantity.allocate", allocate_spec, allocate_scenarios,
+_C = register(Contract(K + "Quantity.allocate", allocate_spec, allocate_scenarios,
                   props=["C06"], summarize=False,
                   notes=f"ratio lists of length 1..{N_MAX}, numbers of every "
                         f"exact kind; longer lists and quantity ratios are bounded"))
+_C.split_scenarios = True
